@@ -58,6 +58,33 @@ PROPS = {
         not_covered=["serde-lexpr/src/de.rs, ser.rs (text layer: delegates to lexpr's parser/printer)", "self-consistency clause (bounded stand-in only)"],
         trusted=STD_TRUST,
     ),
+    "C17": dict(
+        units=["parse", "print"],
+        level="proof",
+        min_obligations=40,
+        replay_family="c17",
+        bounded=[dict(family="c17", what="OUTPUT half (the printer's String is well-formed UTF-8 and equals the bytes written) and end-to-end input checks: ill-formed UTF-8 inside strings, symbols, "
+                                         "keywords and characters from byte-slice and stream sources is rejected (or returned as bytes); &str and byte-slice sources agree on multi-byte text",
+                      bound="9 ill-formed sequences x 9 contexts x 2 option sets x 2 sources; 16 multi-byte texts x 2 option sets; 9 values x 3 printer option sets")],
+        explanation="PROVED (Verus, unbounded), input half: a `str` is built from input bytes in exactly two ways. (1) CHECKED - as_str (std::str::from_utf8): Ok only for "
+                    "valid_utf8 bytes, an error otherwise; every scanner of the byte-slice and stream sources and the Emacs string scanner go through it. (2) UNCHECKED - "
+                    "`unsafe str::from_utf8_unchecked` on the &str source's fast paths (symbols, R6RS strings): its safety precondition valid_utf8(bytes) is a `requires` of "
+                    "the extracted helper and is DISCHARGED at all four call sites: the &str source's input is well-formed (StrRead::new, from the str), the scan starts at a "
+                    "position that is not inside a character (ghost `at_boundary` on the source trait: established whenever the byte under the cursor is ASCII, after any ASCII "
+                    "byte was consumed, and after decode_utf8_sequence consumed a complete, validated character; required by Read::parse_symbol / parse_r6rs_str and proved at "
+                    "every call in parse_token / parse_list / parse_list_meta), stops at an ASCII terminator or quote, and what is copied into the scratch buffer is a "
+                    "concatenation of such cuts, ASCII escape results and encode_utf8 of a char (parse_r6rs_escape keeps the scratch buffer well-formed and ends after an ASCII "
+                    "byte). The UTF-8 facts (a position not inside a character is a boundary and vice versa, cuts at such positions, well-formed prefixes and chunks, ASCII) "
+                    "are proved from vstd::utf8's definitions, no axiom added. NOT PROVED, output half: that the text the printer emits is well-formed UTF-8 (to_string's "
+                    "from_utf8_unchecked) - assumed in unit print, BOUNDED stand-in on every run.",
+        assumptions=[
+            "to_string / to_string_custom: `unsafe String::from_utf8_unchecked(vec)` is an assumed helper (vx_string_from_utf8_unchecked) - the output half is not decided by contracts",
+            "the non-fast-float build's f64_from_parts (from_utf8_unchecked on itoa output) is not extracted (only the default feature set is)",
+            "vstd's axiom that a Rust `str` is well-formed UTF-8 (s.spec_bytes() == encode_utf8(s@))",
+        ],
+        not_covered=["printer output well-formedness (bounded stand-in only)"],
+        trusted=STD_TRUST,
+    ),
     "C19": dict(
         units=["parse"],
         level="proof",
